@@ -29,6 +29,42 @@ type Store struct {
 	Bin  string
 }
 
+// rewrite replaces the content of a result file and puts its modification time back
+// (what `cp -p` or a build tool that restores timestamps does).
+func (s *Store) rewrite(rel string) {
+	p := filepath.Join(s.Root, rel)
+	info, err := os.Stat(p)
+	if err != nil {
+		return
+	}
+	old, _ := os.ReadFile(p)
+	_ = os.WriteFile(p, append([]byte("revised: "), old...), 0o644)
+	_ = os.Chtimes(p, info.ModTime(), info.ModTime())
+	f, err := os.OpenFile(filepath.Join(s.Root, ".verif-rewritten"), os.O_APPEND|os.O_CREATE|os.O_WRONLY, 0o644)
+	if err == nil {
+		fmt.Fprintf(f, "%s\t%s\n", rel, time.Now().UTC().Format(time.RFC3339Nano))
+		f.Close()
+	}
+}
+
+// rewritten: when the file was last replaced by `rewrite`, if ever
+func (s *Store) rewritten(rel string) (time.Time, bool) {
+	b, err := os.ReadFile(filepath.Join(s.Root, ".verif-rewritten"))
+	if err != nil {
+		return time.Time{}, false
+	}
+	var at time.Time
+	found := false
+	for _, l := range strings.Split(string(b), "\n") {
+		if p, ts, ok := strings.Cut(l, "\t"); ok && p == rel {
+			if t, err := time.Parse(time.RFC3339Nano, ts); err == nil {
+				at, found = t, true
+			}
+		}
+	}
+	return at, found
+}
+
 func (s *Store) ErgoDir() string { return filepath.Join(s.Root, ".ergo") }
 func (s *Store) LogPath() string {
 	p := filepath.Join(s.ErgoDir(), "plans.jsonl")
@@ -436,6 +472,18 @@ func (s *Store) observe(ids *IDMap) Observation {
 			it.RDeps = append(it.RDeps, ids.model(d))
 		}
 		for _, r := range sh.Results {
+			// a file whose content was replaced (pseudo-step `rewrite`) cannot vouch for
+			// the attachments made before that
+			stale := false
+			if at, ok := s.rewritten(r.Path); ok {
+				if t, err := time.Parse(time.RFC3339Nano, r.CreatedAt); err == nil && t.Before(at) {
+					stale = true
+				}
+			}
+			if stale {
+				it.Results = append(it.Results, obsResult{Summary: r.Summary, Path: r.Path, TS: r.CreatedAt, sha: r.Sha, url: r.FileURL})
+				continue
+			}
 			it.Results = append(it.Results, obsResult{Summary: r.Summary, Path: r.Path, TS: r.CreatedAt, sha: r.Sha, url: r.FileURL})
 			abs := filepath.Join(s.Root, r.Path)
 			if real, err := filepath.EvalSymlinks(s.Root); err == nil {
